@@ -16,7 +16,7 @@ def esc(s):
 
 def rules_section():
     out = []
-    for i in range(1, 20):
+    for i in range(1, 21):
         p = 'C%02d' % i
         ev = V + '/evidence/%s.json' % p
         out.append('### %s — %s\n' % (p, props[p]['title']))
